@@ -519,6 +519,12 @@ def _pickle_save_values(index, name, val):
         pickle.dump(val, f)
 
 
+def _pickle_values_exist(index, name):
+    file_name = join(_output_directory, f"pickle/{name}_")
+    file_name += _file_name_by_strategy(index)
+    return isfile(file_name)
+
+
 def _pickle_load_values(index, name):
     file_name = join(_output_directory, f"pickle/{name}_")
     file_name += _file_name_by_strategy(index)
@@ -612,7 +618,10 @@ def _minisanity(likelihood_energy, iglobal, sl, comm, plot_minisanity_history):
         value_type_keys = ['redchisq', 'scmean']
         category_keys = ['data_residuals', 'latent_variables']
 
-        if iglobal == 0:
+        # Start a new history in the first iteration and whenever there is no
+        # history to continue (e.g. `initial_index > 0` with a fresh
+        # `output_directory`)
+        if iglobal == 0 or not _pickle_values_exist(iglobal - 1, 'minisanity_history'):
             mh = {tk: {ck: {} for ck in category_keys} for tk in value_type_keys}
         else:
             mh = _pickle_load_values(iglobal - 1, 'minisanity_history')
